@@ -45,6 +45,49 @@ def use_repo() -> None:
         raise RuntimeError(f"aiomysensors imported from {real}, expected under {src}")
 
 
+def sleep_buffer(gateway):
+    """The gateway's sleep buffer, located by WHAT IT IS — the one `MessageBuffer` (public class of gateway.py with the
+    public fields `set_messages` / `internal_messages`) that the gateway object holds and hands to its handlers — not
+    by the name of the private attribute holding it.  Renaming a private attribute is not a change of behaviour
+    (DESIGN 13, false alarm 12: `gateway._message_buffer` renamed made twelve checks crash)."""
+    from aiomysensors.gateway import MessageBuffer  # noqa: PLC0415
+
+    names = list(getattr(gateway, "__dict__", ()))
+    for cls in type(gateway).__mro__:
+        slots = cls.__dict__.get("__slots__", ())
+        names.extend([slots] if isinstance(slots, str) else slots)
+    found = []
+    for n in names:
+        v = getattr(gateway, n, None)
+        if isinstance(v, MessageBuffer) and not any(v is w for w in found):
+            found.append(v)
+    if len(found) != 1:
+        raise RuntimeError(f"the gateway object holds {len(found)} MessageBuffer objects; expected exactly one")
+    return found[0]
+
+
+def direct_stream_transport(open_fn):
+    """A concrete `StreamTransport` whose connection is opened by the coroutine function `open_fn()` (-> reader, writer),
+    built on the class's abstract hook — IF that hook still is the single coroutine method `_open_connection`.  The
+    hook is private: a library that organises the opening differently (a factory, a sync hook returning an opener, ...)
+    has not changed any behaviour a property speaks about, so this returns None then and the caller goes through
+    `TCPTransport` / `SerialTransport` and the module-level open functions they call (`asyncio.open_connection`,
+    `transport.serial.open_serial_connection` — the seams the library's own tests patch).  DESIGN 13, false alarm 13."""
+    import inspect  # noqa: PLC0415
+
+    from aiomysensors.transport import StreamTransport  # noqa: PLC0415
+
+    hook = StreamTransport.__dict__.get("_open_connection")
+    if set(getattr(StreamTransport, "__abstractmethods__", ())) != {"_open_connection"} or not inspect.iscoroutinefunction(hook):
+        return None
+
+    class Direct(StreamTransport):
+        async def _open_connection(self):
+            return await open_fn()
+
+    return Direct()
+
+
 # ---- string transport encoding ---------------------------------------------------------------
 
 
